@@ -19,6 +19,7 @@ EXPLANATION = (
     'Also decided: SqlStorage.__setitem__ writes the given uri on every path; the nsc tool asks yplookup the question its command names. '
     'Also decided (round 7): SqlStorage.__setitem__ removes the old tags whatever the new tags are. '
     'Also decided (round 8): NameServer changes the storage only through operations the in-memory back-end implements itself (no dict-inherited mutator that bypasses its normalising __setitem__). '
+    'Also decided (round 10): nsc hands the command-line words to the name server unchanged; the auto-cleaner removes by exact name only. '
     "Not decided: sqlite's own semantics, reopen equality, histories, injected "
     "statement failures."
 )
@@ -292,6 +293,24 @@ def run(ctx, R, tier):
     dn = cfg.nodes_for(dels[0])
     R.check(all(cfg.guarded(n, lambda e: edge_has_fact(e, not_own)) for n in dn), "C14-R4", "remove|by-name", "the single delete is behind `name != core.NAMESERVER_NAME`",
             rm.loc(dels[0]), "remove(name='Pyro.NameServer') deletes the name server's own entry")
+    # ... and behind nothing that depends on what the name looks like: every string is a name (register, lookup and list accept the empty string), so the by-name branch
+    # is selected by "a name was given" (`is not None`), never by the name's truth value or length
+    namep = rm.params[1]
+
+    def looks_at_the_name(atom, pol):
+        if isinstance(atom, ast.Name) and atom.id == namep:
+            return True
+        if isinstance(atom, ast.Call) and isinstance(atom.func, ast.Name) and atom.func.id in ("len", "bool") and atom.args and unparse(atom.args[0]) == namep:
+            return True
+        if isinstance(atom, ast.Compare) and len(atom.ops) == 1:
+            sides = [atom.left, atom.comparators[0]]
+            if any(isinstance(x, ast.Name) and x.id == namep or (isinstance(x, ast.Call) and unparse(x.func) == "len" and x.args and unparse(x.args[0]) == namep) for x in sides) and \
+                    any(isinstance(x, ast.Constant) and x.value in ("", 0, 1) and x.value is not None and not isinstance(x.value, bool) for x in sides):
+                return True
+        return False
+    shaped = any(cfg.guarded(n, lambda e: edge_has_fact(e, looks_at_the_name)) for n in dn)
+    R.check(not shaped, "C14-R4", "remove|by-name-for-every-name", "the by-name delete does not depend on the name's truth value or length (the empty string is a name)", rm.loc(dels[0]),
+            "the delete is reached only when `%s` is truthy / non-empty: remove('') answers 0 and leaves the entry that register('') created and lookup('') finds" % namep)
     ri = [c for c, _ in ctx.cg.calls_of(rm) if isinstance(c.func, ast.Attribute) and c.func.attr == "remove_items"]
     if len(ri) != 2:
         raise AnalysisError("NameServer.remove: expected two remove_items calls (prefix, regex), found %d" % len(ri))
